@@ -38,7 +38,7 @@ XR_GCR = P.verify(fn(
     'sfc_models.external.ExchangeRates.GetCrossRate', name='sfc_models.external.ExchangeRates.GetCrossRate[str]',
     args=dict(self=Ref('ExchangeRates'), local=STR, foreign=STR), returns=STR,
     requires=[('full_code_is_plain', "not ('__' in self.FullCode)"),
-              ('currency_codes_are_plain', "not ('__' in local + '_' + foreign)")],
+              ('currency_codes_are_plain', "not ('__' in local + '_' + foreign) and plain_name(local + '_' + foreign)")],
     modifies=['len.*', 'el.*', 'dh.S.R', 'dv.S.R', 'dh.S.TR_SE', 'dv.S.TR_SE', 'dk', 'tyof', 'f.Equation.*', 'f.Term.*'],
     ensures=[('names_the_cross_rate_variable', "result == (self.FullCode + '__' + local + '_' + foreign if self.FullCode != '' else placeholder(self.ID, local + '_' + foreign))"),
              ('variable_exists', "has(self.EquationBlock.Equations, local + '_' + foreign)"),
@@ -113,7 +113,7 @@ P.verify(fn(
     args=dict(self=Ref('ExternalSector'), local=STR, foreign=STR), returns=STR,
     requires=[('xr_is_the_only_XR', "all(implies(self.SectorList[j].Code == 'XR', self.SectorList[j] is %s) for j in range(0, len(self.SectorList)))" % XR0),
               ('full_code_is_plain', "not ('__' in %s.FullCode)" % XR0),
-              ('currency_codes_are_plain', "not ('__' in local + '_' + foreign)")],
+              ('currency_codes_are_plain', "not ('__' in local + '_' + foreign) and plain_name(local + '_' + foreign)")],
     modifies=['len.*', 'el.*', 'dh.S.R', 'dv.S.R', 'dh.S.TR_SE', 'dv.S.TR_SE', 'dk', 'tyof', 'f.Equation.*', 'f.Term.*'],
     ensures=[('names_the_cross_rate_variable', "result == (%s.FullCode + '__' + %s if %s.FullCode != '' else placeholder(%s.ID, %s))" % (XR0, CODE, XR0, XR0, CODE)),
              ('variable_exists', "has(%s.EquationBlock.Equations, %s)" % (XR0, CODE)),
@@ -187,7 +187,7 @@ P.verify(fn(
     requires=FX_REQ + [
         ('currency_position_exists', "has(self.EquationBlock.Equations, 'NET_' + %s) and allocated(%s) and eq_inv(%s) and eq_sep(%s, %s)" % (TGT, eqn(TGT), eqn(TGT), eqn(TGT), NUM)),
         ('xr_full_code_is_plain', "not ('__' in %s.FullCode)" % XRS),
-        ('currency_codes_are_plain', "not ('__' in %s + '_' + %s)" % (SRC, TGT)),
+        ('currency_codes_are_plain', "not ('__' in %s + '_' + %s) and plain_name(%s + '_' + %s)" % (SRC, TGT, SRC, TGT)),
         ('fx_and_xr_blocks_are_separate', "self.EquationBlock.Equations is not %s.EquationBlock.Equations and self.EquationBlock.Equations is not mod_of(%s).Aliases" % (XRS, XRS)),
     ],
     old_defs=[('amount', FULLNAME), ('xr', XRNAME % (SRC, SRC)), ('cross', CROSS), ('tgt', TGT)],
@@ -240,8 +240,8 @@ def wf_flow(s_, t_):
         "all(implies(%s.SectorList[j].Code == 'FX', %s.SectorList[j] is %s) for j in range(0, len(%s.SectorList))) and %s.Parent is %s and "
         "all(implies(%s.SectorList[j].Code == 'XR', %s.SectorList[j] is xr_sector(%s)) for j in range(0, len(%s.SectorList))) and "
         "not ('__' in xr_sector(%s).FullCode) and %s is not xr_sector(%s).EquationBlock.Equations and %s is not mod_of(xr_sector(%s)).Aliases and "
-        "has(%s, 'NET_NUMERAIRE') and allocated(%s) and eq_inv(%s) and %s and %s and not ('__' in %s.CurrencyZone.Currency + '_' + %s.CurrencyZone.Currency))"
-        % (EXT, EXT, FXS, EXT, FXS, EXT, EXT, EXT, EXT, EXT, EXT, FXB, EXT, FXB, EXT, FXB, FXNUM, FXNUM, fx_pos(s_), fx_pos(t_), s_, t_)])
+        "has(%s, 'NET_NUMERAIRE') and allocated(%s) and eq_inv(%s) and %s and %s and not ('__' in %s.CurrencyZone.Currency + '_' + %s.CurrencyZone.Currency) and plain_name(%s.CurrencyZone.Currency + '_' + %s.CurrencyZone.Currency))"
+        % (EXT, EXT, FXS, EXT, FXS, EXT, EXT, EXT, EXT, EXT, EXT, FXB, EXT, FXB, EXT, FXB, FXNUM, FXNUM, fx_pos(s_), fx_pos(t_), s_, t_, s_, t_)])
 
 
 FLOW = 'self.RegisteredCashFlows[%s]'
